@@ -114,6 +114,10 @@ func (v *Valuation) term(x ssa.Value, depth int) aterm {
 			if a.neg || b.neg {
 				break
 			}
+			if a.key == b.key && (a.key == "nil" || strings.HasPrefix(a.key, "const:")) {
+				// the same constant on both sides (a phi resolved to nil compared with nil)
+				return aterm{key: "true", neg: y.Op == token.NEQ}
+			}
 			if (a.key == "nil" && b.nonnil) || (b.key == "nil" && a.nonnil) {
 				// x == nil for a value known to be non-nil
 				return aterm{key: "true", neg: y.Op == token.EQL}
@@ -300,6 +304,7 @@ type PathQuery struct {
 	FromFacts bool                                          // with From: start with the branch facts that dominate From's block (they hold whenever From executes)
 	Target    func(in ssa.Instruction, val *Valuation) bool // true: this arrival is a witness
 	Stop      func(in ssa.Instruction) bool                 // paths end here (optional)
+	StopEdge  func(from, to *ssa.BasicBlock) bool           // paths do not continue over this edge (optional)
 	MaxStates int
 }
 
@@ -452,6 +457,9 @@ func (q PathQuery) Find() (*Witness, error) {
 			}
 		}
 		for si, s := range it.blk.Succs {
+			if q.StopEdge != nil && q.StopEdge(it.blk, s) {
+				continue
+			}
 			nv := val
 			if cond != nil && len(it.blk.Succs) == 2 {
 				taken := si == 0
